@@ -410,6 +410,18 @@ class Interp:
         alpha = float(np.float32(op.options[1].get("Alpha", 0.0)))
         self.float_unary(op, lambda v: np.where(v >= 0, v, v * alpha))
 
+    def op_PRELU(self, op):
+        x_i, a_i, y_i = op.inputs[0], op.inputs[1], op.outputs[0]
+        xs, xzp = self.scalar_q(x_i)
+        as_, azp = self.scalar_q(a_i)
+        ys, yzp = self.scalar_q(y_i)
+        alpha = (self.get(a_i) - azp).astype(np.float64) * as_
+        v = (self.get(x_i) - xzp).astype(np.float64) * xs
+        real = np.where(v >= 0, v, v * alpha)
+        y = np.where(real >= 0, np.floor(real / ys + 0.5), -np.floor(-real / ys + 0.5)) + yzp
+        # lowered to min / mul / relu / add with two intermediate roundings: a documented approximation of its own
+        self.put(y_i, y.astype(np.int64), 2, [x_i])
+
     def op_ABS(self, op):
         x_i, y_i = op.inputs[0], op.outputs[0]
         xs, xzp = self.scalar_q(x_i)
